@@ -115,16 +115,19 @@ class UStruct(Item):
 
 class UEnum(Item):
     PREFIX = "W"; sized = False
-    def _init(self, tag, variants, dflt=None, force_portable=False):
+    def _init(self, tag, variants, dflt=None, force_portable=False, discs=None):
         for form, fs in variants:
             assert all(f.sized for f in fs[:-1])
         self.tag = tag; self.variants = variants; self.dflt = dflt; self.forced = force_portable
+        # explicit discriminants written in the declaration; for an UNSIZED enum the macro documents that the tag
+        # is the variant index, so they change nothing in the reference
+        self.discs = discs
         self.default = dflt is not None and all(f.default for _, fs in variants for f in fs)
         if dflt is not None: assert variants[dflt][0] == "unit"
         self.portable = (tag == "u8" or force_portable) and all(f.portable for _, fs in variants for f in fs)
     def spec(self):
         vs = ["%s(%s)" % (form[0], ",".join(f.spec() for f in fs)) for form, fs in self.variants]
-        return "uenum(%s;%s;d%s%s)" % (self.tag, "|".join(vs), self.dflt, ";declared_portable" if self.forced else "")
+        return "uenum(%s;%s;d%s%s%s)" % (self.tag, "|".join(vs), self.dflt, ";declared_portable" if self.forced else "", "" if self.discs is None else ";discriminants_ignored=" + ".".join(str(x) for x in self.discs))
 
 # ---------------------------------------------------------------- emission
 def vname(i): return "V%d" % i
@@ -349,7 +352,7 @@ impl Node for {it.ident} {{
 """
 
 def emit_uenum(it):
-    vs = [vname(i) + variant_decl(form, fs) for i, (form, fs) in enumerate(it.variants)]
+    vs = [vname(i) + variant_decl(form, fs) + ("" if it.discs is None else " = %d" % it.discs[i]) for i, (form, fs) in enumerate(it.variants)]
     vs = [("#[default] " if i == it.dflt else "") + v for i, v in enumerate(vs)]
     vdesc = ", ".join("vec![%s]" % ", ".join(desc_of(f) for f in fs) for _, fs in it.variants)
     read_arms = walk_arms = apply_arms = probe_arms = emp_arms = ""
@@ -428,7 +431,8 @@ def catalog(thorough):
     # c-like enums
     K = [get(CEnum, "u8", 2, 1), get(CEnum, "u8", 3, 0), get(CEnum, "u16", 3, 2), get(CEnum, "u32", 2, 0), get(CEnum, "u8", 1, 0),
          get(CEnum, "u8", 256, 255), get(CEnum, "u8", 255, 0),   # as many variants as the tag can count, and one less
-         get(CEnum, "u8", 3, 1, [1, 5, 9]), get(CEnum, "u16", 2, 0, [7, 300])]   # explicit discriminants
+         get(CEnum, "u8", 3, 1, [1, 5, 9]), get(CEnum, "u16", 2, 0, [7, 300]),   # explicit discriminants
+         get(CEnum, "u8", 3, 0, [9, 5, 1]), get(CEnum, "u8", 4, 2, [3, 200, 7, 0])]   # ... not in ascending order
     if thorough: K += [get(CEnum, "u16", 4, 1), get(CEnum, "u32", 4, 3)]
     for k in K: add(k)
     K2, K3, K16, K32 = K[0], K[1], K[2], K[3]
@@ -542,6 +546,10 @@ def catalog(thorough):
     # a tail vector of composite elements whose SIZE is not a multiple of the struct's ALIGN (the struct's extent
     # is the rounded-up extent of its tail)
     add(get(UStruct, [U64, Vec(Arr(U32, 2), U32)])); add(get(UStruct, [U32, Vec(Arr(U8, 3), U8)])); add(get(UStruct, [U64, Vec(P_u8u32, U16)]))
+    # unsized enums declared with explicit discriminants (ignored by the macro for unsized enums: the tag is the index):
+    # values at or above the variant count, and a permutation of 0..n
+    add(get(UEnum, "u8", [("named", [U32, Vec(U8, U16)]), ("tuple", [U16]), ("unit", [])], 2, False, [5, 1, 9]))
+    add(get(UEnum, "u8", [("tuple", [V88]), ("unit", [])], 1, False, [1, 0]))
     # unsized enums whose strictly smallest variant is declared LAST / beyond a power-of-two variant count
     ue("u8", [("named", [U32, Vec(U8, U16)]), ("tuple", [U32]), ("unit", [])], 2)
     ue("u8", [("tuple", [U16]), ("tuple", [U32]), ("tuple", [U8, V88]), ("tuple", [U64]), ("unit", [])], 4)
@@ -569,7 +577,7 @@ def catalog(thorough):
     add(Flex(UNIT, U8)); add(Flex(Arr(U32, 0), U16)); add(Flex(get(SStruct, []), LE16))
     global IO_SHAPES
     W_con = get(UEnum, "u16", [("unit", []), ("tuple", [K3, V_b8]), ("tuple", [Q_small])], 0)
-    IO_SHAPES = [Vec(BOOL, U8), Vec(U8, U64), W_con, W_msg, W_pad, U_u32_v88, Vec(U8, U32), Str(U16), Flex(V88, U8), Flex(Vec(U16, U16), U16), P_u8u32, Q_small, PU, Flex(U32, U8), W_repo, UNIT]
+    IO_SHAPES = [Vec(BOOL, U8), Vec(U8, U64), W_con, W_msg, W_pad, U_u32_v88, Vec(U8, U32), Str(U16), Flex(V88, U8), Flex(Vec(U16, U16), U16), P_u8u32, Q_small, PU, Flex(U32, U8), W_repo, UNIT, Flex(V88, LE16), Flex(V88, BE32)]
     return top
 
 IO_SHAPES = []
